@@ -119,8 +119,9 @@ func cmdWitness(args []string) {
 			continue
 		}
 		if s.Kind == "ctxregexfn" {
-			// function format: package-level functions, so the names carry the scenario number
-			fmt.Fprintf(&src, "\n// goverter:converter\n// goverter:output:format function\n%s// goverter:output:file ../gen/c%d.go\n// goverter:output:package %s/gen\ntype C%d interface {\n%s\t// goverter:map V | Fn\n\tM1x%d(source S4, kx int) T4\n%s\t// goverter:map V | Fn\n\tM2x%d(source S5, kx int) T5\n}\n",
+			// function format: package-level functions, so the names carry the scenario number; the methods declare kx as a context
+			// themselves, so only the classification of Fn's parameter depends on the pattern
+			fmt.Fprintf(&src, "\n// goverter:converter\n// goverter:output:format function\n%s// goverter:output:file ../gen/c%d.go\n// goverter:output:package %s/gen\ntype C%d interface {\n%s\t// goverter:context kx\n\t// goverter:map V | Fn\n\tM1x%d(source S4, kx int) T4\n%s\t// goverter:context kx\n\t// goverter:map V | Fn\n\tM2x%d(source S5, kx int) T5\n}\n",
 				regexLine(s.PC, ""), i, b.Mod, i, regexLine(s.P1, "\t"), i, regexLine(s.P2, "\t"), i)
 			continue
 		}
